@@ -13,6 +13,26 @@ CONSTANT K
 VARIABLE l
 Rec == ndJsonDeserialize(IOEnv.TRACE)
 SeqSet(q) == {q[i] : i \in 1..Len(q)}
+\* the table verdicts on one snapshot of every node's tables (taken after the joins, and again after every node used the network)
+Tables(e, N) ==
+  LET S == SeqSet(e.servers)
+      idx == 1..Len(N)
+      addrOf == [i \in idx |-> N[i].addr]
+      knows == [i \in idx |-> SeqSet(N[i].rt) \cup SeqSet(N[i].srt)]
+      byAddr(a) == CHOOSE i \in idx : addrOf[i] = a
+      present == {addrOf[i] : i \in idx}
+      liveS == S \cap present
+      RECURSIVE Reach(_, _)
+      Reach(F, n) == IF n = 0 THEN F
+                     ELSE LET G == F \cup UNION {knows[byAddr(a)] \cap liveS : a \in F} IN
+                          IF G = F THEN F ELSE Reach(G, n - 1)
+      connected == \A a \in liveS : Reach({a}, Cardinality(liveS)) = liveS
+      clientsKnow == \A i \in idx : (~N[i].server) => (knows[i] \cap liveS # {})
+      boot == \A i \in idx : N[i].has_bootstrap => Len(N[i].rt) > 0
+      firstLearns == Cardinality(liveS) > K \/ (liveS \ {e.first}) \subseteq knows[byAddr(e.first)]
+  IN (IF boot THEN {} ELSE {"C13_Bootstrapped"})
+     \cup (IF firstLearns THEN {} ELSE {"C13_FirstNodeLearns"})
+     \cup (IF connected /\ clientsKnow THEN {} ELSE {"C13_Connected"})
 Check(e) ==
   LET S == SeqSet(e.servers)
       idx == 1..Len(e.nodes)
@@ -35,9 +55,8 @@ Check(e) ==
                        e.lookups[j].done /\ (liveS \ {me}) \subseteq SeqSet(e.lookups[j].queried)
       late == e.late.done /\ e.late.result = TRUE
       dead == e.dead.done /\ e.dead.result = FALSE /\ e.dead.dur_ms <= (e.dead.addresses + 2) * (e.dead.tmax_ms + 250) * 2
-  IN (IF boot /\ late THEN {} ELSE {"C13_Bootstrapped"})
-     \cup (IF firstLearns THEN {} ELSE {"C13_FirstNodeLearns"})
-     \cup (IF connected /\ clientsKnow THEN {} ELSE {"C13_Connected"})
+  IN (IF late THEN {} ELSE {"C13_Bootstrapped"})
+     \cup Tables(e, e.nodes) \cup Tables(e, e.nodes_after)
      \cup (IF allQueried THEN {} ELSE {"C13_AllQueried"})
      \cup (IF dead THEN {} ELSE {"C13_DeadBootstrap"})
      \cup (IF e.panicked = <<>> THEN {} ELSE {"C13_NoPanic"})
